@@ -467,6 +467,36 @@ def rule_forms(repo, rep):
           ev.scalars[t0.id] = v
         else:
           ev.mats.pop(t0.id, None)
+    elif isinstance(s_, ast.AugAssign) and isinstance(s_.target, ast.Name) \
+            and isinstance(s_.op, (ast.Mult, ast.Add, ast.Sub, ast.Div)):
+      # x op= e is x = x op e for this evaluation
+      nm = s_.target.id
+      v = ev.ev(ast.BinOp(left=ast.Name(id=nm, ctx=ast.Load()), op=s_.op,
+                          right=s_.value))
+      ev.mats.pop(nm, None)
+      ev.scalars.pop(nm, None)
+      if isinstance(v, NC):
+        ev.mats[nm] = v
+      elif isinstance(v, _Rat):
+        ev.scalars[nm] = v
+    else:
+      # any other statement that can change a tracked temporary (element
+      # store, in-place call, nested block) makes its value unknown here
+      for x in ast.walk(s_):
+        tg_ = None
+        if isinstance(x, (ast.AugAssign,)):
+          tg_ = x.target
+        elif isinstance(x, ast.Assign):
+          for t_ in x.targets:
+            for y_ in ast.walk(t_):
+              if isinstance(y_, ast.Name) and y_.id not in (pairs_n, y_n):
+                ev.mats.pop(y_.id, None)
+                ev.scalars.pop(y_.id, None)
+        if tg_ is not None:
+          for y_ in ast.walk(tg_):
+            if isinstance(y_, ast.Name):
+              ev.mats.pop(y_.id, None)
+              ev.scalars.pop(y_.id, None)
   if solver_arg is None or not seen_prior:
     rep.unknown(R, key + 'emp_cov', site(f), 'solver call / prior pair not '
                 'found')
